@@ -85,6 +85,7 @@ type connState struct {
 	Corrupt       []string
 	inHandler     int
 	cmdCtx        context.Context
+	EndCtx        string // "" / "live" / "done": state of the last command\'s context once the connection had ended (sampled before teardown)
 	cancelSession context.CancelFunc
 	reader        *buffer.Reader
 	CapSeen       []int
@@ -325,12 +326,23 @@ func (rt *Runtime) buildServer() (*wire.Server, error) {
 	if cfg.Version != "" {
 		opts = append(opts, wire.Version(cfg.Version))
 	}
+	var lateTLS func(*wire.Server)
 	if cfg.TLS != "" {
 		tc, err := serverTLSConfig(cfg.TLS)
 		if err != nil {
 			return nil, err
 		}
-		opts = append(opts, wire.TLSConfig(tc))
+		switch cfg.TLSVia {
+		case "field":
+			lateTLS = func(srv *wire.Server) { srv.TLSConfig = tc }
+		case "late-cert":
+			certs := tc.Certificates
+			tc.Certificates = nil
+			opts = append(opts, wire.TLSConfig(tc))
+			lateTLS = func(srv *wire.Server) { tc.Certificates = certs }
+		default:
+			opts = append(opts, wire.TLSConfig(tc))
+		}
 	}
 	for i, mw := range cfg.MW {
 		i, mw := i, mw
@@ -369,7 +381,11 @@ func (rt *Runtime) buildServer() (*wire.Server, error) {
 	if !cfg.NilParse {
 		parse = rt.parseFn
 	}
-	return wire.NewServer(parse, opts...)
+	srv, err := wire.NewServer(parse, opts...)
+	if err == nil && lateTLS != nil {
+		lateTLS(srv)
+	}
+	return srv, err
 }
 
 // Result is everything a run produced; oracles are functions of (Case, Result).
@@ -407,6 +423,13 @@ type Result struct {
 func (rt *Runtime) snapshotClosed() {
 	for _, c := range rt.Conns {
 		c.ClosedBefore = c.Closed
+		if c.Closed > 0 && c.cmdCtx != nil {
+			// the connection has ended by itself: the context of its last command
+			c.EndCtx = "live"
+			if c.cmdCtx.Err() != nil {
+				c.EndCtx = "done"
+			}
+		}
 	}
 }
 
